@@ -1,6 +1,6 @@
 (* C11 property theorems.  Model: Model.v (legacy = false is the code with fixes/01 and fixes/02). *)
 From OlaBase Require Import Bytes.
-From C11 Require Import Gen Model Lemmas Term3.
+From C11 Require Import Gen Model Lemmas Term3 E120 Complete2.
 Local Open Scope N_scope.
 
 (* Termination, exactly-once completion and absence of the modelled hazards (dangling parent range,
@@ -24,6 +24,47 @@ Theorem c11_terminates :
       (forall m, (n <= m)%nat -> run false m f (init incremental s0) = e).
 Proof. exact terminates_full. Qed.
 Print Assumptions c11_terminates.
+
+(* ---------- conforming responders (E1.20) ----------
+   The line of E120.v: [S] is the set of connected responders, [M] the muted ones.
+     answering M lo hi = the members of S inside [lo,hi] that are not muted;
+     e_branch: nobody answering => no reply; exactly one => its DUB frame (dub_frame, the E1.20
+       encoding with preamble and checksum); several => [coll A], about which only the hypothesis
+       below is assumed: a collision does not decode as a valid reply;
+     e_step: UnMuteAll clears M; MuteDevice u is ACKed iff u is in S and then u is muted;
+     e_run n: n requests answered.
+   Starting from ANY agent state s0 and ANY mute state M0 of the responders. *)
+Theorem c11_complete :
+  forall (S : list N) (coll : list N -> list N) (s0 : st) (M0 : list N),
+    NoDup S -> (forall x, In x S -> x < 281474976710655) ->
+    (forall A, (2 <= length A)%nat -> decode (coll A) = DCollision) ->
+    exists n e M, e_run S coll n (init false s0) M0 = (e, M) /\
+      pending e = PIdle /\ completions e = completions s0 + 1 /\
+      result e = Some (true, uids e) /\ (forall x, In x (uids e) <-> In x S).
+Proof. exact complete_w. Qed.
+Print Assumptions c11_complete.
+
+(* Incremental discovery from a state whose UID set is whatever an earlier run left (uids s0 = S0),
+   with the responders S1 now connected: the result is S1, i.e. the previously known responders
+   that still answer their mute plus the newly connected ones. *)
+Theorem c11_incremental :
+  forall (S1 : list N) (coll : list N -> list N) (s0 : st) (M0 : list N),
+    NoDup S1 -> (forall x, In x S1 -> x < 281474976710655) ->
+    (forall A, (2 <= length A)%nat -> decode (coll A) = DCollision) ->
+    exists n e M, e_run S1 coll n (init true s0) M0 = (e, M) /\
+      pending e = PIdle /\ completions e = completions s0 + 1 /\
+      result e = Some (true, uids e) /\
+      (forall x, In x (uids e) <-> (In x (uids s0) /\ In x S1) \/ (In x S1 /\ ~ In x (uids s0))).
+Proof. exact incremental_w. Qed.
+Print Assumptions c11_incremental.
+
+(* the collision hypothesis is satisfiable, and a concrete conforming run *)
+Example c11_coll_sat : forall A, (2 <= length A)%nat -> decode (coll_ff A) = DCollision.
+Proof. exact coll_ff_bad. Qed.
+Example c11_e120_run :
+  let '(e, M) := e_run [7; 5; 281474976710654; 6] coll_ff 200 (init false idle0) [] in
+  result e = Some (true, [5; 6; 7; 281474976710654]) /\ completions e = 1.
+Proof. exact e120_example. Qed.
 
 (* the limits the statement refers to are the ones of the header *)
 Theorem c11_constants :
